@@ -231,7 +231,9 @@ pub fn run(input: &Value) -> Case {
         format!("crops_of_shared_buffer={}", shared_parent),
         format!("repeated={}", repeated),
         format!("eviction_forced={}", has_size_op),
-        format!("bg={}", bg.is_some()),
+        format!("bg={}", match bg { None => "default", Some(b) if b[3] == 255 => "opaque", Some(_) => "translucent" }),
+        format!("wide_over_255={}", widths.iter().any(|w| *w > 255)),
+        format!("subsampled_in_draw={}", heights.iter().zip(widths.iter()).any(|(h, w)| (h / 6) * 6 * w >= 51200)),
     ];
     for h in &heights {
         tags.push(format!("height={}", hb(*h)));
